@@ -34,6 +34,12 @@ def synthetic(t, attach=None, force=None, misroute: bool = True, on_inject=None)
     w.max_events = 3000
     w.max_t = 400_000
     syn = Synth(w, perturb=[12, 6, 40][t.choose(3, "perturb")])
+    # the receiving entity also knows a second remote entity (id 3) that counts its transactions from the same number
+    import copy as _copy
+
+    r3 = _copy.copy(w.b.rcfg)
+    r3.entity_id = UnsignedByteField(3, cfg.idw_a)
+    w.b.table.add_config(r3)
     ctx.info["synth"] = syn
     ctx.info["injected"] = {}
     ctx.info["rejected"] = 0
